@@ -280,7 +280,7 @@ def ugrid_dataset(mesh, d):
     info = {}
     if d.get("face_coords"):
         c = face_centres_xyz(mesh)
-        flon, flat = lonlat_of(c, d.get("lon360", False))
+        flon, flat = lonlat_of(c, d.get("centres_lon360", d.get("lon360", False)))
         ds[vn["flon"]] = xr.DataArray(flon, dims=[vn["df"]], attrs={"units": "degrees_east"})
         ds[vn["flat"]] = xr.DataArray(flat, dims=[vn["df"]], attrs={"units": "degrees_north"})
         topo["face_coordinates"] = f"{vn['flon']} {vn['flat']}"
@@ -323,7 +323,7 @@ def scrip_dataset(mesh, d):
         clon[i] = lon[idx]
         clat[i] = nodes[idx, 1]
     c = face_centres_xyz(mesh)
-    flon, flat = lonlat_of(c, d.get("lon360", False))
+    flon, flat = lonlat_of(c, d.get("centres_lon360", d.get("lon360", False)))
     ds = xr.Dataset()
     gs, gc = d.get("dims", ("grid_size", "grid_corners"))
     ds["grid_corner_lat"] = xr.DataArray(clat, dims=[gs, gc], attrs={"units": "degrees"})
@@ -391,7 +391,7 @@ def esmf_dataset(mesh, d):
     info = {}
     if d.get("centers", True):
         c = face_centres_xyz(mesh)
-        flon, flat = lonlat_of(c, d.get("lon360", True))
+        flon, flat = lonlat_of(c, d.get("centres_lon360", d.get("lon360", True)))
         ds["centerCoords"] = xr.DataArray(np.stack([flon, flat], axis=1), dims=["elementCount", "coordDim"], attrs={"units": "degrees"})
         info["xyz_c"] = c
     return ds, info
